@@ -35,21 +35,23 @@ type dynRes struct {
 }
 
 type dynWorld struct {
-	Root    *dynRes
-	Res     []*dynRes // all resources except root
-	Paths   [2][]*dynRes
-	Final   *dynRes
-	Names   int        // 1: only anchor name a is used; 2: the final resource has a $dynamicRef for a and one for b
-	RefForm [2]string  // "frag", "resource", "pointer"
-	RefText [2]string
-	Static  [2]*dynRes
-	Dynamic [2]bool // the final reference acts dynamically
-	RootDoc string
-	Docs    map[string]string // remote documents by URI
-	Fanout  bool              // the root sends property A down chain A and property B down chain B in ONE call
-	Permuted bool            // chain B enters the same resources as chain A in another order
-	Detour  *dynRes           // a resource (declaring the dynamic anchor) that is entered and left again, through a failing anyOf branch, before the chain continues
-	DetAt   *dynRes           // the resource (or root) whose hop makes the detour
+	Root     *dynRes
+	Res      []*dynRes // all resources except root
+	Paths    [2][]*dynRes
+	Final    *dynRes
+	Names    int       // 1: only anchor name a is used; 2: the final resource has a $dynamicRef for a and one for b
+	RefForm  [2]string // "frag", "resource", "pointer"
+	RefText  [2]string
+	Static   [2]*dynRes
+	Dynamic  [2]bool // the final reference acts dynamically
+	RootDoc  string
+	Docs     map[string]string // remote documents by URI
+	Fanout   bool              // the root sends property A down chain A and property B down chain B in ONE call
+	Descend  bool              // the final $dynamicRef(s) sit below properties/k: the markers are looked for in the member k of the instance, a container of its own
+	SameInst bool              // fan-out over ONE object: allOf [chain A, chain B] applied to the same instance, so the final resource meets the same container twice, under two dynamic scopes
+	Permuted bool              // chain B enters the same resources as chain A in another order
+	Detour   *dynRes           // a resource (declaring the dynamic anchor) that is entered and left again, through a failing anyOf branch, before the chain continues
+	DetAt    *dynRes           // the resource (or root) whose hop makes the detour
 }
 
 const dynRootURI = "http://d.test/s/root.json"
@@ -347,6 +349,12 @@ func genDynWorldOpt(c *Ctx, fanout bool) *dynWorld {
 	if w.Final.Entry != "" {
 		holder = w.Final.Body["$defs"].(map[string]any)["entry"].(map[string]any)
 	}
+	if c.W(3) == 0 {
+		w.Descend = true
+		sub := map[string]any{}
+		holder["properties"] = map[string]any{"k": sub}
+		holder = sub
+	}
 	if w.Names == 1 {
 		holder["$dynamicRef"] = w.RefText[0]
 	} else {
@@ -367,12 +375,26 @@ func genDynWorldOpt(c *Ctx, fanout bool) *dynWorld {
 				"B": map[string]any{"$ref": hopRef(c, w.Root, w.Paths[1][0])},
 			},
 		}
+		if !w.Permuted && c.W(3) == 0 {
+			// disjoint chains (no hop depends on the instance's p): both are applied to the same object
+			w.SameInst = true
+			root = map[string]any{
+				"$schema": "https://json-schema.org/draft/2020-12/schema",
+				"allOf": []any{
+					map[string]any{"$ref": hopRef(c, w.Root, w.Paths[0][0])},
+					map[string]any{"$ref": hopRef(c, w.Root, w.Paths[1][0])},
+				},
+			}
+		}
 	}
 	if w.DetAt == w.Root {
 		wrap := func(ref any) map[string]any {
 			return map[string]any{"anyOf": []any{map[string]any{"$ref": refTo(c, w.Root, w.Detour)}, ref}}
 		}
-		if w.Fanout {
+		if w.SameInst {
+			ao := root["allOf"].([]any)
+			ao[0], ao[1] = wrap(ao[0]), wrap(ao[1])
+		} else if w.Fanout {
 			pr := root["properties"].(map[string]any)
 			pr["A"] = wrap(pr["A"])
 			pr["B"] = wrap(pr["B"])
@@ -488,10 +510,81 @@ func (w *dynWorld) markersFor(c *Ctx, p int, dst map[string]any) (valid bool, no
 	return
 }
 
+// descend moves the marker members of m into its member k (worlds whose final references sit
+// below properties/k).
+func (w *dynWorld) descend(m map[string]any) {
+	if !w.Descend {
+		return
+	}
+	k := map[string]any{}
+	for _, mp := range markerProps {
+		if v, ok := m[mp]; ok {
+			k[mp] = v
+			delete(m, mp)
+		}
+	}
+	m["k"] = k
+}
+
 func (w *dynWorld) history(c *Ctx) []dynCall {
+	out := w.history0(c)
+	for _, call := range out {
+		m, ok := call.Inst.(map[string]any)
+		if !ok {
+			continue
+		}
+		if w.Fanout && !w.SameInst {
+			for _, key := range []string{"A", "B"} {
+				if sub, ok := m[key].(map[string]any); ok {
+					w.descend(sub)
+				}
+			}
+		} else {
+			w.descend(m)
+		}
+	}
+	return out
+}
+
+func (w *dynWorld) history0(c *Ctx) []dynCall {
 	n := 6 + c.W(11)
 	var out []dynCall
-	for i := 0; i < n && w.Fanout; i++ {
+	for i := 0; i < n && w.SameInst; i++ {
+		if c.W(10) == 0 {
+			out = append(out, dynCall{Inst: pick(c, []any{"str", 5.0, nil, []any{}}), Path: 0, Valid: true, Note: "non-object"})
+			continue
+		}
+		inst := map[string]any{"p": pick(c, []string{"A", "B", "C"})}
+		valid := true
+		note := "same-instance fan-out "
+		for ni := 0; ni < w.Names; ni++ {
+			var m string
+			switch c.W(7) {
+			case 0:
+				continue // absent
+			case 1, 2:
+				m = w.expectedN(0, ni)
+			case 3, 4:
+				m = w.expectedN(1, ni)
+			default:
+				pool := []string{"T_root", "ZZ", w.Final.Marker}
+				for _, r := range w.Res {
+					pool = append(pool, r.Marker)
+				}
+				m = pick(c, pool)
+				if ni == 1 && m != "ZZ" {
+					m = "U" + m[1:]
+				}
+			}
+			inst[markerProps[ni]] = m
+			if m != w.expectedN(0, ni) || m != w.expectedN(1, ni) {
+				valid = false
+			}
+			note += markerProps[ni] + "=" + m + " "
+		}
+		out = append(out, dynCall{Inst: inst, Path: 0, Valid: valid, Note: note})
+	}
+	for i := 0; i < n && w.Fanout && !w.SameInst; i++ {
 		inst := map[string]any{}
 		valid := true
 		note := ""
@@ -540,7 +633,7 @@ func (w *dynWorld) describe() map[string]any {
 		docs[k] = json.RawMessage(v)
 	}
 	return map[string]any{"root": json.RawMessage(w.RootDoc), "remote_documents": docs, "chainA": paths[0], "chainB": paths[1],
-		"root_anchor": w.Root.Anchor, "fan_out": w.Fanout, "permuted_chains": w.Permuted, "anchor_names": w.Names, "final_dynamicRef": w.RefText[:w.Names], "form": w.RefForm[:w.Names], "acts_dynamically": w.Dynamic[:w.Names],
+		"root_anchor": w.Root.Anchor, "fan_out": w.Fanout, "fan_out_over_one_object": w.SameInst, "final_refs_below_properties_k": w.Descend, "permuted_chains": w.Permuted, "anchor_names": w.Names, "final_dynamicRef": w.RefText[:w.Names], "form": w.RefForm[:w.Names], "acts_dynamically": w.Dynamic[:w.Names],
 		"expectedA": w.expectedAll(0), "expectedB": w.expectedAll(1), "detour_at": func() string {
 			if w.DetAt == nil {
 				return ""
@@ -636,6 +729,9 @@ func driveC06(c *Ctx) {
 	}
 	if w.Fanout {
 		c.Probe("fan-out-root")
+	}
+	if w.SameInst {
+		c.Probe("fan-out-over-one-object")
 	}
 	if w.Detour != nil {
 		c.Probe("detour-through-failing-branch")
